@@ -85,7 +85,7 @@ SubsOn(arr, subs, j, lax) ==     \* [items, oob] for a subscript list
        IN [items |-> o.items \o r.items, oob |-> o.oob \/ r.oob]
 
 (* One step applied to one item: [items, mis]                               *)
-StepOne(Pred(_, _), n, v, lax, len, unwrap) ==
+StepOne(Pred(_, _, _), n, v, lax, len, unwrap) ==
   LET Mis == [items |-> <<>>, mis |-> ~len]
   IN CASE n.k = "key" ->
             IF v.t = "obj" THEN (IF ObjHas(v, n.s) THEN [items |-> <<ObjGet(v, n.s)>>, mis |-> FALSE] ELSE Mis)
@@ -102,13 +102,13 @@ StepOne(Pred(_, _), n, v, lax, len, unwrap) ==
             ELSE [items |-> <<>>, mis |-> TRUE]
        [] n.k = "any" -> [items |-> AnyOracle(v, n.first, n.last), mis |-> FALSE]
        [] n.k = "filter" ->
-            [items |-> IF Pred(n.p, v) THEN <<v>> ELSE <<>>, mis |-> FALSE]
+            [items |-> IF Pred(n.p, v, len) THEN <<v>> ELSE <<>>, mis |-> FALSE]     \* len: the item lies below .**
 
 (* lax: member accessors and filters see the elements of an array item      *)
 Unwraps(n) == n.k \in {"key", "anykey", "filter"}
 
 RECURSIVE StepAll(_, _, _, _, _, _)
-StepAll(Pred(_, _), n, xs, j, lax, len) ==
+StepAll(Pred(_, _, _), n, xs, j, lax, len) ==
   IF j > Len(xs) THEN [items |-> <<>>, mis |-> FALSE]
   ELSE LET v == xs[j]
            o == IF lax /\ Unwraps(n) /\ v.t = "arr"
@@ -121,11 +121,11 @@ StepAll(Pred(_, _), n, xs, j, lax, len) ==
 (* runs the element level with lax = FALSE (no second unwrap, no wrap), so  *)
 (* mismatches are masked at the top.                                        *)
 RECURSIVE LevelFrom(_, _, _, _, _, _, _)
-LevelFrom(Pred(_, _), ch, i, xs, lax, len, mis) ==
+LevelFrom(Pred(_, _, _), ch, i, xs, lax, len, mis) ==
   IF i > Len(ch) THEN [items |-> xs, mis |-> mis]
   ELSE LET o == StepAll(Pred, ch[i], xs, 1, lax, len \/ lax)
        IN LevelFrom(Pred, ch, i + 1, o.items, lax, len \/ ch[i].k = "any", mis \/ (o.mis /\ ~lax))
 
 (* chain[1] must be the root node *)
-LevelSem(Pred(_, _), ch, doc, lax) == LevelFrom(Pred, ch, 2, <<doc>>, lax, FALSE, FALSE)
+LevelSem(Pred(_, _, _), ch, doc, lax) == LevelFrom(Pred, ch, 2, <<doc>>, lax, FALSE, FALSE)
 =============================================================================
